@@ -6,6 +6,7 @@ import ZvbiModel.Mux.Spec
 import ZvbiModel.Demux.Ts
 import ZvbiModel.Demux.LemmasTs
 import ZvbiModel.Demux.LemmasTsSafe
+import ZvbiModel.Demux.LemmasTsCont
 /-!
 # C07 - DVB demux output depends only on the byte stream and recovers after damage
 
@@ -336,6 +337,66 @@ theorem ts_first_frame_lost_counterexample :
 /-- with `ts_pes_packet_complete ()` also at the end of the header evaluation the first frame arrives -/
 example : ((tsFeed SrcCfg.repaired (TsSt.init 256) tsThree).frames.map fun f => (f.pts, f.lines.map (·.line)))
     = [(3, [7]), (4, [7])] ∧ (tsFeed SrcCfg.repaired (TsSt.init 256) tsThree).err = none := by decide +kernel
+
+/-- **ts_unknown_counter_accepts_any.** While the expected continuity_counter is unknown (`ts_continuity == -1`:
+new demultiplexer, after `vbi_dvb_demux_reset`, after every loss of sync) no packet is classified as repeated
+or as a continuity error, whatever counter it carries (all 16 values; in particular 14 = -2 mod 16, the value a
+"previous counter" computed from -1 would match): a packet of the PID that passes the TS header checks goes on
+to the PES start test with the counter learned from it.  (Seeded change C07-f breaks exactly this.) -/
+theorem ts_unknown_counter_accepts_any (b3 : Nat) (s : TsSt) (q : Bytes) (hc : s.cont = none)
+    (hh : tsHeaderCheck s q = none) :
+    tsContCheck none b3 = .ok ∧
+    tsHeader cfg s q =
+      match tsStart { s with cont := some (q.getD 3 0 + 1) } q with
+      | none => (tsSkipPesPacket { s with cont := some (q.getD 3 0 + 1) } q, none)
+      | some s1 => tsCopy cfg s1 q :=
+  ⟨tsContCheck_none b3, tsHeader_unknown s q hc hh⟩
+
+/-- non-vacuity, end to end on the model: an intact stream of one-packet frames delivers its first frame for
+every initial continuity_counter 0..15 (the stream start is an unknown-counter state) -/
+example : (List.range 16).all (fun cc =>
+    ((tsFeed SrcCfg.repaired (TsSt.init 256) (tsThreeFrom cc)).frames.map fun f => (f.pts, f.lines.map (·.line)))
+      == [(3, [7]), (4, [7])]) = true := by decide +kernel
+
+/-- **the repeated-packet rule drops exactly a packet whose counter equals the previous one.**  After a packet
+with header byte `p` was accepted (`ts_continuity = p + 1`) the next packet of the PID with header byte `q` is
+* accepted iff `q` carries the next counter,
+* taken for a repeated packet iff `q` carries the same counter as `p` (ISO 13818-1 2.4.3.3: a duplicate),
+* a continuity error (PES packet and frame discarded) in the 14 other cases;
+and a repeated packet is skipped with nothing else changed: expected counter, PES packet under assembly and
+frame are kept (`tsSkipPacket` only moves on in `ts_buffer`). -/
+theorem ts_repeated_iff_same_counter (p q : Nat) :
+    (tsContCheck (some (p + 1)) q = .ok ↔ q % 16 = (p + 1) % 16) ∧
+    (tsContCheck (some (p + 1)) q = .repeated ↔ q % 16 = p % 16) ∧
+    (tsContCheck (some (p + 1)) q = .lost ↔ (q % 16 ≠ (p + 1) % 16 ∧ q % 16 ≠ p % 16)) := by
+  have h1 := tsContCheck_ok_next p q
+  have h2 := tsContCheck_repeated_prev p q
+  refine ⟨h1, h2, ?_⟩
+  cases h : tsContCheck (some (p + 1)) q with
+  | ok => rw [h] at h1; simp [h1.1 rfl]
+  | repeated => rw [h] at h2; simp [h2.1 rfl]
+  | lost =>
+    rw [h] at h1 h2
+    simp only [true_iff]
+    exact ⟨fun e => (by have := h1.2 e; cases this), fun e => (by have := h2.2 e; cases this)⟩
+
+/-- ... skipped with nothing else changed -/
+theorem ts_repeated_packet_skipped (s : TsSt) (q : Bytes) (p : Nat) (hc : s.cont = some (p + 1))
+    (hh : tsHeaderCheck s q = none) (hr : q.getD 3 0 % 16 = p % 16) :
+    tsHeader cfg s q = (tsSkipPacket s q, none) ∧ (tsSkipPacket s q).cont = s.cont ∧ (tsSkipPacket s q).fs = s.fs
+      ∧ (tsSkipPacket s q).pes = s.pes ∧ (tsSkipPacket s q).pesTodo = s.pesTodo := by
+  refine ⟨tsHeader_repeated s q (p + 1) hc hh (by rw [Nat.add_sub_cancel]; exact hr) (by omega), ?_⟩
+  unfold tsSkipPacket tsAdvance
+  dsimp only
+  split <;> exact ⟨rfl, rfl, rfl, rfl⟩
+
+/-- non-vacuity: the second packet of `tsThree` sent twice is dropped once, all frames arrive -/
+example : ((tsFeed SrcCfg.repaired (TsSt.init 256)
+      (tsOf 256 0 (linePacket 3 7 0x55) ++ tsOf 256 1 (linePacket 4 7 0x66) ++ tsOf 256 1 (linePacket 4 7 0x66)
+        ++ tsOf 256 2 (linePacket 5 7 0x77))).frames.map fun f => (f.pts, f.lines.map (·.line)))
+    = [(3, [7]), (4, [7])] := by decide +kernel
+example : tsContCheck (some (0x1E + 1)) 0x1E = .repeated ∧ tsContCheck (some (0x1F + 1)) 0x10 = .ok
+    ∧ tsContCheck (some (0x1F + 1)) 0x12 = .lost := by decide
 
 /-! ## Joint with C06 (multiplexer model `ZvbiModel/Mux`) -/
 
